@@ -77,6 +77,12 @@ def proj_check(kind, case, rec):
     rec.require("project-shape", proj.shape == (npts,) + ts, [proj.shape, (npts,) + ts])
     if proj.shape == (npts,) + ts:
         rec.close("project-own-space=nodal-values", float(np.abs(proj.reshape(npts, size) - vals)[used].max()), 1e-8, {"kind": kind, "order": case["order"]})
+    # caller-supplied differential volumes (e.g. 2 pi R dA or J dV): both sides of the projection use them, own-space values
+    # are reproduced for any positive weights and the weighted integral is preserved
+    wdv = np.asarray(region.dV) * rng.uniform(0.5, 2.0, np.asarray(region.dV).shape)
+    pw_ = np.asarray(fem.project(vq_t, region, dV=wdv))
+    if pw_.shape == (npts,) + ts:
+        rec.close("project(dV=w)-own-space=nodal-values", float(np.abs(pw_.reshape(npts, size) - vals)[used].max()), 1e-8, {"kind": kind})
     # average=False: values on the disconnected mesh (one set of nodal values per cell, no averaging across cells)
     if not kind.endswith("mini"):
         pd_ = np.asarray(fem.project(vq_t, region, average=False))
@@ -205,6 +211,25 @@ def stress_check(kind, case, rec):
     if J.min() < 0.3:
         rec.reject("det F < 0.3")
         return
+    if kind in ("3d", "planestrain", "axisymmetric"):
+        # the default per-cell quantities a Job writes (helpers of felupe.mechanics._job): quadrature-point means
+        import scipy.linalg as sl
+        from felupe.mechanics import _job as J_
+
+        Fm = F.mean(-2)  # (3 or dim, ., cells)
+        if F.shape[0] == 3:
+            got = np.asarray(J_.deformation_gradient(fc)[0])
+            rec.close("job:deformation-gradient-cell-means", float(np.abs(got - Fm.transpose(2, 0, 1)).max()) if got.shape == Fm.transpose(2, 0, 1).shape else float("inf"), 1e-14)
+            C_ = np.einsum("ki...,kj...->ij...", F, F)
+            E_ = np.zeros_like(C_)
+            for idx in np.ndindex(*C_.shape[2:]):
+                E_[(slice(None), slice(None)) + idx] = 0.5 * sl.logm(C_[(slice(None), slice(None)) + idx]).real
+            vs = np.stack([E_[0, 0], E_[1, 1], E_[2, 2], 2 * E_[0, 1], 2 * E_[1, 2], 2 * E_[0, 2]])
+            got = np.asarray(J_.log_strain(fc)[0])
+            rec.close("job:log-strain-cell-means(voigt)", float(np.abs(got - vs.mean(-2).T).max()) if got.shape == vs.mean(-2).T.shape else float("inf"), 1e-9)
+            pe = np.linalg.eigvalsh(E_.transpose(2, 3, 0, 1))[..., ::-1].mean(0)
+            got = np.asarray(J_.log_strain_principal(fc)[0])
+            rec.close("job:principal-log-strain-cell-means", float(np.abs(got - pe).max()) if got.shape == pe.shape else float("inf"), 1e-9)
     um = gmat.build(case["mat"]["name"], case["mat"]["params"])
     if kind == "nearlyincompressible":
         solid = fem.SolidBodyNearlyIncompressible(fem.NeoHooke(mu=1.0), fc, bulk=20.0)
